@@ -28,6 +28,8 @@ Proof.
   apply Qcplus_le_compat; [apply Qcle_refl | exact H].
 Qed.
 
+Local Arguments brun : simpl never.
+
 Section RunProofs.
 Variable S : ScalOps.
 Hypothesis L : ScalLaws S.
@@ -53,6 +55,7 @@ Notation modify_go := (modify_go S par pscale is_one pbig pzero).
 Notation modify_model := (modify_model S par pscale is_one pbig pzero).
 Notation insert_E := (insert_E S par pscale is_one pbig pzero).
 Notation lookup := (lookup S par).
+Notation has_params := (has_params par).
 
 (* ------------------------------------------------------------------ specification vocabulary *)
 Definition count_probes (seq : list item) : nat := length (filter is_probe seq).
@@ -148,7 +151,7 @@ Lemma sim_app seq1 seq2 : forall ov b tic,
 Proof.
   induction seq1 as [|i t IH]; intros ov b tic.
   - simpl. unfold total_dur; simpl. replace (tic + Q2Qc 0)%Qc with tic by ring.
-    now destruct (sim seq2 ov b tic).
+    change (brun [] b) with b. now destruct (sim seq2 ov b tic).
   - destruct i as [n x d|n q d]; simpl.
     + rewrite IH. rewrite brun_cons. unfold total_dur; simpl.
       now replace (tic + d + qsum (map dur t))%Qc with (tic + (d + qsum (map dur t)))%Qc by ring.
@@ -165,7 +168,7 @@ Proof.
 Qed.
 
 (* ------------------------------------------------------------------ times *)
-Lemma sim_times_adc seq : forall ov b tic, snd (sim seq ov b tic) = adc_times_from seq tic.
+Lemma sim_times_adc (seq : list item) : forall ov b tic, snd (sim seq ov b tic) = adc_times_from seq tic.
 Proof.
   induction seq as [|i t IH]; intros ov b tic; simpl; auto.
   destruct i as [n x d|n q d]; simpl; [apply IH | now rewrite IH].
@@ -181,7 +184,7 @@ Proof.
   - destruct j as [|j']; simpl; [reflexivity|]. rewrite (IH _ _ _ H). ring.
 Qed.
 
-Lemma adc_times_sorted seq : forall tic,
+Lemma adc_times_sorted (seq : list item) : forall tic,
   (forall i, In i seq -> (0 <= dur i)%Qc) -> sorted_from tic (adc_times_from seq tic).
 Proof.
   induction seq as [|i t IH]; intros tic H; simpl; auto.
@@ -292,7 +295,7 @@ Proof.
 Qed.
 
 Lemma flat_seq_leaves (s : list item) : flat_seq (map (@Leaf S par) s) = s.
-Proof. induction s as [|i t IH]; simpl; auto. unfold flat_seq in IH. now rewrite IH. Qed.
+Proof. unfold flat_seq. induction s as [|i t IH]; simpl; auto. now f_equal. Qed.
 
 Lemma flat_seq_app (l1 l2 : list tree) : flat_seq (l1 ++ l2) = flat_seq l1 ++ flat_seq l2.
 Proof. apply flat_map_app. Qed.
@@ -319,6 +322,8 @@ Definition piece (P : mparams par) (i : item) : list item :=
        match evol_of P (dur i) with Some e => [IOp (eid (item_id i)) e (Q2Qc 0)] | None => [] end
      else []).
 
+Local Arguments piece : simpl never.
+
 Lemma modifier_flat P i : flat (modifier P i) = piece P i.
 Proof.
   unfold modifier, piece. rewrite att_item_dur.
@@ -334,15 +339,17 @@ Lemma modify_go_flat P (whole : list item) (Hc : ids_consistent whole) :
     (forall n tr, lookup n memo = Some tr -> exists i', In i' whole /\ item_id i' = n /\ tr = modifier P i') ->
     flat_seq (modify_go P seq memo) = flat_map (piece P) seq.
 Proof.
-  induction seq as [|i t IH]; intros memo Hin Hmemo; simpl; auto.
+  induction seq as [|i t IH]; intros memo Hin Hmemo; [reflexivity|].
   assert (Hi : In i whole) by (apply Hin; now left).
   assert (Ht : forall i', In i' t -> In i' whole) by (intros; apply Hin; now right).
+  change (flat_map (piece P) (i :: t)) with (piece P i ++ flat_map (piece P) t).
+  cbn [Run.modify_go].
   destruct (lookup (item_id i) memo) as [tr|] eqn:E.
   - destruct (Hmemo _ _ E) as [i' [Hi' [Hid ->]]].
     assert (i' = i) as -> by (apply Hc; auto).
-    unfold flat_seq in *. simpl. rewrite modifier_flat. f_equal. now apply IH.
-  - unfold flat_seq in *. simpl. rewrite modifier_flat. f_equal. apply IH; auto.
-    intros n tr. simpl. destruct (Nat.eqb_spec n (item_id i)) as [->|Hn].
+    unfold flat_seq in *. cbn [flat_map]. rewrite modifier_flat. f_equal. now apply IH.
+  - unfold flat_seq in *. cbn [flat_map]. rewrite modifier_flat. f_equal. apply IH; auto.
+    intros n tr. cbn [Run.lookup]. destruct (Nat.eqb_spec n (item_id i)) as [->|Hn].
     + intros H; inversion H; subst. exists i; auto.
     + apply Hmemo.
 Qed.
@@ -405,9 +412,95 @@ Qed.
 Lemma insert_E_probes seq P : count_probes (insert_E seq P) = count_probes seq.
 Proof.
   rewrite insert_E_pieces. unfold count_probes.
-  induction seq as [|i t IH]; simpl; auto.
-  rewrite filter_app, app_length, IH, att_item_probe.
+  induction seq as [|i t IH]; [reflexivity|].
+  change (flat_map (piece P) (i :: t)) with (piece P i ++ flat_map (piece P) t).
+  rewrite filter_app, app_length, IH. unfold piece. simpl. rewrite att_item_probe.
   destruct (qc_pos (dur i)); [destruct (evol_of P (dur i))|]; simpl; destruct (is_probe i); simpl; lia.
 Qed.
+
+(* ------------------------------------------------------------------ the theorems of C12 *)
+Definition state_at (seq : list item) (j : nat) (b : bstate S) : bstate S :=
+  map (run (ops_before seq j)) b.
+
+Theorem probe_count_order (seq : list item) ov b tic :
+  length (fst (sim seq ov b tic)) = count_probes seq /\
+  (forall j, (j < count_probes seq)%nat -> exists p, nth_probe seq j = Some p /\
+     nth j (fst (sim seq ov b tic)) [] = row_of p ov (state_at seq j b)) /\
+  (forall rest, firstn (count_probes seq) (fst (sim (seq ++ rest) ov b tic)) = fst (sim seq ov b tic)).
+Proof.
+  split; [apply sim_lengths|]. split.
+  - intros j Hj. destruct (nth_probe_some seq j Hj) as [p Hp]. exists p. split; auto.
+    unfold state_at. rewrite <- brun_map. now apply sim_row.
+  - intros rest. apply snapshot_prefix.
+Qed.
+
+Theorem times_cumsum (seq : list item) ov b tic :
+  snd (sim seq ov b tic) = adc_times_from seq tic /\
+  length (adc_times_from seq tic) = count_probes seq /\
+  (forall j, (j < count_probes seq)%nat ->
+     nth j (adc_times_from seq tic) (Q2Qc 0) = (tic + dur_upto seq j)%Qc) /\
+  ((forall i, In i seq -> (0 <= dur i)%Qc) -> sorted_from tic (adc_times_from seq tic)).
+Proof.
+  split; [apply sim_times_adc|]. split.
+  - rewrite <- (sim_times_adc seq [] [] tic). apply sim_lengths.
+  - split.
+    + intros j Hj. destruct (nth_probe_some seq j Hj) as [p Hp]. now apply adc_time_nth with p.
+    + apply adc_times_sorted.
+Qed.
+
+Theorem override_keeps_when_and_post (seq : list item) ov b tic :
+  ov <> [] ->
+  snd (sim seq ov b tic) = snd (sim seq [] b tic) /\
+  length (fst (sim seq ov b tic)) = length (fst (sim seq [] b tic)) /\
+  (forall j p, nth_probe seq j = Some p ->
+     nth j (fst (sim seq ov b tic)) [] = map (fun pb => recorded p pb (state_at seq j b)) ov /\
+     nth j (fst (sim seq [] b tic)) [] = [recorded p None (state_at seq j b)]).
+Proof.
+  intros Hov. split; [apply sim_times_override|]. split.
+  - destruct (sim_lengths seq ov b tic) as [-> _]. now destruct (sim_lengths seq [] b tic) as [-> _].
+  - intros j p Hp. unfold state_at. rewrite <- brun_map.
+    rewrite (sim_row seq ov b tic j p Hp), (sim_row seq [] b tic j p Hp).
+    split; [now apply row_of_override | apply row_of_plain].
+Qed.
+
+Theorem adc_phase (p pb : probe) (ph : S) (b : bstate S) :
+  pphasor p = Some [ph] ->
+  acquire pb (ppost p) b = map (fun v => (v * ph)%K) (pacq pb b) /\
+  ((ph * kconj ph)%K = k1 ->
+   List.Forall2 (fun r v => (r * kconj r)%K = (v * kconj v)%K) (acquire pb (ppost p) b) (pacq pb b)).
+Proof.
+  intros H. split; [now apply adc_phase_scalar|].
+  intros Hu. rewrite (adc_phase_scalar p pb ph b H).
+  induction (pacq pb b) as [|v t IH]; simpl; constructor; auto. now apply phasor_modulus.
+Qed.
+
+(* un-batched, plain ADC with phase: the recorded number is phasor * quantity of the state at that point *)
+Theorem probe_value_unbatched (seq : list item) (s : sm S) tic j p ph :
+  nth_probe seq j = Some p -> pweights p = None -> reduces p = false -> pphasor p = Some [ph] ->
+  nth j (fst (sim seq [] [s] tic)) [] = [[(qeval (pq p) (run (ops_before seq j) s) * ph)%K]].
+Proof.
+  intros Hp Hw Hr Hph.
+  destruct (override_keeps_when_and_post seq [None] [s] tic) as [_ [_ H]]; [discriminate|].
+  destruct (H j p Hp) as [_ ->]. unfold recorded, state_at. simpl.
+  rewrite (pacq_plain p _ Hw Hr). unfold ppost. rewrite Hph. reflexivity.
+Qed.
+
+Theorem weights_reduce (p : probe) (w : value S) (b : bstate S) :
+  pweights p = Some w ->
+  (length w = length b -> preduce p <> RFalse -> pacq p b = [wsum (map (qeval (pq p)) b) w]) /\
+  (length w = length b -> preduce p = RFalse ->
+     pacq p b = map (fun uv => (fst uv * snd uv)%K) (combine (map (qeval (pq p)) b) w)) /\
+  (forall c, w = [c] -> preduce p <> RFalse -> pacq p b = [(ksum (map (qeval (pq p)) b) * c)%K]).
+Proof.
+  intros Hw. split; [|split].
+  - now apply pacq_weights_reduce.
+  - now apply pacq_weights_noreduce.
+  - intros c -> Hr. now apply pacq_scalar_weight.
+Qed.
+
+Theorem reduce_only (p : probe) (b : bstate S) :
+  pweights p = None ->
+  pacq p b = if reduces p then [ksum (map (qeval (pq p)) b)] else map (qeval (pq p)) b.
+Proof. intros Hw. unfold pacq. now rewrite Hw. Qed.
 
 End RunProofs.
